@@ -82,6 +82,7 @@ func factsFractal() {
 			return true
 		})
 	}
+	intFact("collectorAllowAhead", d, "allowAhead")
 	emit("/-- capacity of a task's report channel (`make(chan *CollectorMsg, N)` in `LocalSuperior.AddTask`) -/\ndef fractalTaskChanCap : Nat := %d", capN)
 	// submitCollectorMsg: the cache lock is released before the hand-over, and a send on a channel closed by
 	// RemoveTask is recovered
